@@ -1171,6 +1171,100 @@ def split_ifexp_returns(fn: ast.FunctionDef) -> ast.FunctionDef:
     return new_fn
 
 
+def split_rebinds(fn: ast.FunctionDef) -> ast.FunctionDef:
+    """A local that is re-bound in the middle of a statement list (`offset *= size`, `x = x + 1`) gets a fresh name from that
+    point on, so that every name has one meaning:  `for i, n in ...: i *= 8; use(i)`  reads  `i__r1 = i * 8; use(i__r1)`.
+    Done only when the re-binding statement stands directly in the list, nothing later in the list binds the name again inside a
+    nested statement, and the name is not read outside the list."""
+    new = copy.deepcopy(fn)
+    counter = [0]
+    all_loads: Dict[str, int] = {}
+    for n in ast.walk(new):
+        if isinstance(n, ast.Name) and isinstance(n.ctx, ast.Load):
+            all_loads[n.id] = all_loads.get(n.id, 0) + 1
+
+    def loads_in(nodes, name) -> int:
+        return sum(1 for st in nodes for n in ast.walk(st) if isinstance(n, ast.Name) and n.id == name and isinstance(n.ctx, ast.Load))
+
+    def binds_nested(st: ast.stmt, name: str) -> bool:
+        for n in ast.walk(st):
+            if n is st:
+                continue
+            if isinstance(n, ast.Name) and n.id == name and isinstance(n.ctx, (ast.Store, ast.Del)):
+                return True
+        return False
+
+    def block(stmts: List[ast.stmt], bound: Set[str]) -> List[ast.stmt]:
+        bound = set(bound)
+        i = 0
+        while i < len(stmts):
+            st = stmts[i]
+            name = None
+            if isinstance(st, ast.AugAssign) and isinstance(st.target, ast.Name):
+                name = st.target.id
+            elif isinstance(st, ast.Assign) and len(st.targets) == 1 and isinstance(st.targets[0], ast.Name) \
+                    and any(isinstance(n, ast.Name) and n.id == st.targets[0].id for n in ast.walk(st.value)):
+                name = st.targets[0].id
+            if name is not None and name in bound:
+                later = stmts[i + 1:]
+                inside = loads_in(stmts, name)
+                ok = inside == all_loads.get(name, 0) and not any(
+                    binds_nested(x, name) if isinstance(x, (ast.If, ast.For, ast.While, ast.With, ast.Try)) else False for x in later)
+                if ok:
+                    counter[0] += 1
+                    fresh = f"{name}__r{counter[0]}"
+                    if isinstance(st, ast.AugAssign):
+                        val = ast.BinOp(left=ast.Name(id=name, ctx=ast.Load()), op=st.op, right=st.value)
+                    else:
+                        val = st.value
+                    repl = ast.copy_location(ast.Assign(targets=[ast.Name(id=fresh, ctx=ast.Store())], value=val), st)
+                    for k, v in getattr(st, "__dict__", {}).items():
+                        if k.startswith("_s"):
+                            setattr(repl, k, v)
+                    ren = _Rename({name: ast.Name(id=fresh, ctx=ast.Load())})
+                    # stop renaming at the next direct re-binding of `name` in this list (it is handled in turn)
+                    new_later = []
+                    active = True
+                    for x in later:
+                        if active and ((isinstance(x, ast.AugAssign) and isinstance(x.target, ast.Name) and x.target.id == name) or
+                                       (isinstance(x, ast.Assign) and any(isinstance(t, ast.Name) and t.id == name for t in x.targets))):
+                            # the right-hand side still reads the fresh name
+                            if isinstance(x, ast.AugAssign):
+                                x = ast.copy_location(ast.Assign(targets=[ast.Name(id=name, ctx=ast.Store())],
+                                                                 value=ast.BinOp(left=ast.Name(id=fresh, ctx=ast.Load()), op=x.op, right=ren.visit(x.value))), x)
+                            else:
+                                x.value = ren.visit(x.value)
+                            active = False
+                            new_later.append(x)
+                            continue
+                        new_later.append(ren.visit(x) if active else x)
+                    stmts = stmts[:i] + [repl] + new_later
+                    all_loads[fresh] = loads_in(stmts, fresh)
+                    bound.add(fresh)
+                    i += 1
+                    continue
+            for n in ast.walk(st):
+                if isinstance(n, ast.Name) and isinstance(n.ctx, ast.Store):
+                    bound.add(n.id)
+            for fld in ("body", "orelse", "finalbody"):
+                sub = getattr(st, fld, None)
+                if isinstance(sub, list) and sub and isinstance(sub[0], ast.stmt) and not isinstance(st, (ast.FunctionDef, ast.ClassDef)):
+                    extra = set()
+                    if isinstance(st, (ast.For, ast.AsyncFor)):
+                        extra = {n.id for n in ast.walk(st.target) if isinstance(n, ast.Name)}
+                    setattr(st, fld, block(sub, bound | extra))
+            if isinstance(st, ast.Try):
+                for h in st.handlers:
+                    h.body = block(h.body, bound)
+            i += 1
+        return stmts
+    params = {a.arg for a in new.args.args + new.args.kwonlyargs}
+    new.body = block(new.body, params)
+    ast.fix_missing_locations(new)
+    number(new)
+    return new
+
+
 # ------------------------------------------------------------------------------------ attribution of private helpers
 def _all_functions(tree: ast.AST):
     def rec(node, prefix):
